@@ -319,7 +319,7 @@ func execDpCompile(op string) string {
 	}
 	var x strings.Builder
 	x.WriteString("syntax = \"proto3\";\nmessage X {}\n")
-	for i := 0; i < 3000; i++ {
+	for i := 0; i < 8000; i++ {
 		fmt.Fprintf(&x, "message F%d {}\n", i)
 	}
 	srcs := map[string]string{"google/protobuf/descriptor.proto": custom, "x.proto": x.String()}
@@ -327,7 +327,7 @@ func execDpCompile(op string) string {
 		Resolver:       &protocompile.SourceResolver{Accessor: protocompile.SourceAccessorFromMap(srcs)},
 		MaxParallelism: par,
 	}
-	ctx, cancel := context.WithTimeout(context.Background(), 3*time.Second)
+	ctx, cancel := context.WithTimeout(context.Background(), 10*time.Second)
 	defer cancel()
 	_, err = comp.Compile(ctx, req...)
 	switch {
